@@ -283,7 +283,7 @@ UNSUPPORTED = [
     ("str", True), ("attr_unknown", True), ("attr_mod", True), ("attrdeep", True), ("unknown_mod", True),
     ("ret_none", True), ("assign", True), ("chain_is", True),
     # refused by the exporter although MathML could say it: allowed, not demanded
-    ("mod", False), ("uadd", False), ("np.floor", False), ("np.exp", False),
+    ("mod", False), ("uadd", False), ("np.floor", False), ("np.exp", False), ("math_remainder", False),
 ]
 
 
@@ -328,6 +328,8 @@ def unsupported_expr(rng, kind, g: G):
         return ["call", ["lib", "scipy", "sqrt"], [x]]
     if kind == "mod":
         return ["binop", "Mod", x, g.posden(0)]
+    if kind == "math_remainder":
+        return ["call", ["lib", "math", "remainder"], [x, g.posden(0)]]
     if kind == "uadd":
         return ["unary", "UAdd", x]
     raise ValueError(kind)
@@ -881,6 +883,14 @@ def judge_case(ctx, case, R, M):
     ctx.count({"model": desc, "states": case["states"]}, case["kind"].split(":")[0], nontrivial)
     if case["kind"].startswith("unsupported:"):
         ctx.hist["construct " + case["kind"].split(":")[1]] = ctx.hist.get("construct " + case["kind"].split(":")[1], 0) + 1
+    # 0. the Lean spec of the original model agrees with CPython + mxlpy on this input (also when the export
+    #    is refused: the meaning of the construct is still part of the specification)
+    if M is not None and "orig" in R and "err" not in R["orig"]:
+        ident0 = {n: n for n in kinds["all"]}
+        S0 = view(R["orig"], ident0, kinds)
+        sp = view(lean_numbers(M["spec"]), ident0, kinds, ref=S0, fill_none=True)
+        if json.dumps(sp, sort_keys=True) != json.dumps(S0, sort_keys=True):
+            ctx.add_drift(small, S0, sp, "Lean spec of the original model (evalPy) differs from the real model")
     # 1. constructs without MathML counterpart
     if case["must_raise"]:
         ctx.judge(small, {"export": r_exp}, {"export": "error"}, None if m_exp is None else {"export": m_exp},
@@ -914,12 +924,7 @@ def judge_case(ctx, case, R, M):
     if "orig" not in R or "err" in R["orig"]:
         raise RuntimeError(f"harness: original model does not evaluate: {R.get('orig')}\n{case['source']}")
     S = view(R["orig"], ident, kinds)
-    # 3. the Lean spec of the original model agrees with CPython + mxlpy on this input
     stats: dict = {}
-    if M is not None:
-        sp = view(lean_numbers(M["spec"]), ident, kinds, ref=S, stats=stats, fill_none=True)
-        if json.dumps(sp, sort_keys=True) != json.dumps(S, sort_keys=True):
-            ctx.add_drift(small, S, sp, "Lean spec of the original model (evalPy) differs from the real model")
     # 4. the round trip
     imp = dict(M["names"]) if M is not None else ident
     if "err" in R["read"]:
